@@ -333,8 +333,10 @@ def install_wrapper_stubs(E, ctx, R, my, opts):
     def key_ok(k, node):
         if 'key' not in st:
             st['key'] = k
-        E.oblige('%s/frame.same_key_for_every_subscript' % Q, z3.BoolVal(k is st['key']), props={'C14', 'C01'},
-                 site=getattr(node, 'lineno', None))
+        # C05/C06 too: a marker filed under something coarser than the key (its hash, its first argument) is shared by
+        # unequal keys -- a call then waits behind another key's computation, for ever if that computation awaits it
+        E.oblige('%s/frame.same_key_for_every_subscript' % Q, z3.BoolVal(k is st['key']),
+                 props={'C14', 'C01', 'C05', 'C06'}, site=getattr(node, 'lineno', None))
 
     # ---- cache mapping and in-flight table ------------------------------------------------------
     def getitem(E_, o, k, node):
@@ -470,6 +472,27 @@ def install_wrapper_stubs(E, ctx, R, my, opts):
                     return a[1]
                 E.throw('KeyError', origin='no-marker')
             return VStub('dict.pop', pop)
+        if o is ctx.cache_obj and name in ('pop', 'popitem', 'clear'):
+            def evict(E_, a, k):
+                """the wrapper itself removing an entry of the store (the CALLER's mapping): whatever is stored under the
+                key -- also a value another call has stored and handed out meanwhile"""
+                if name == 'pop':
+                    key_ok(a[0], node)
+                access('_cache.%s(...)' % name)
+                s = R.cur()
+                E.oblige('%s/frame.the_wrapper_never_evicts_from_the_store' % Q, z3.Not(s.c_has), props={'C14', 'C01', 'C06'},
+                         detail='_cache.%s() in the wrapper: once one invocation has succeeded its result stays for every '
+                                'later caller unless the OWNER of the mapping evicts it' % name)
+                had = E.branch(s.c_has)
+                R.set(c_has=z3.BoolVal(False))
+                if name == 'pop':
+                    if had:
+                        return VVal(s.c_val)
+                    if len(a) > 1:
+                        return a[1]
+                    E.throw('KeyError', origin='cache-bookkeeping')
+                return NONE
+            return VStub('dict.' + name, evict)
         if isinstance(o, VVal) and o.t.sort() == LoopS:
             if name == 'is_running':
                 def fn(E_, a, k):
@@ -669,6 +692,13 @@ def install_wrapper_stubs(E, ctx, R, my, opts):
 
     def wait_for(E_, a, k):
         t = a[1]
+        if isinstance(a[0], Obj) and a[0].cls == 'Awaitable' and a[0].fields.get('kind') == 'user_invocation':
+            E.oblige('%s/invoke.the_own_invocation_is_awaited_without_a_deadline_of_the_caches_own' % Q, z3.BoolVal(False),
+                     props={'C06', 'C05', 'C01'},
+                     detail='wait_for(func(...), T): a computation that simply takes longer is cancelled by the cache and its '
+                            'caller gets a TimeoutError no invocation raised; everybody queued behind takes over and fails '
+                            'the same way')
+            raise PathEnd()
         return aio.mk_awaitable('wait_for', inner=a[0], timeout=t)
     ns.attrs['wait_for'] = VStub('asyncio.wait_for', wait_for)
 
